@@ -297,6 +297,17 @@ template<int N, class T> static void misc_query_n(Rng& g) {
             mat z(T(0)); z[pos / N][pos % N] = d; query_sq<N, T>(z, eps);                      // nearly null
             mat i(T(1)); i[pos / N][pos % N] += d; query_sq<N, T>(i, eps);                     // nearly identity
         }
+        if (eps == T(1) / T(4)) {
+            // orthogonal rows of lengths 1.2 and 0.9 (inside 1 +- 2 eps): the columns then have dot (a^2 - b^2) c s = 0.3024,
+            // between eps and 2 eps, while the rows are exactly orthogonal; the transpose has it the other way round
+            for (int a = 0; a + 1 < N; ++a) {
+                mat g2(T(1));
+                T A = T(6) / T(5), Bq = T(9) / T(10), c = T(3) / T(5), sn = T(4) / T(5);
+                g2[a][a] = A * c; g2[a + 1][a] = A * sn; g2[a][a + 1] = -Bq * sn; g2[a + 1][a + 1] = Bq * c;
+                query_sq<N, T>(g2, eps);
+                query_sq<N, T>(glm::transpose(g2), eps);
+            }
+        }
         // signed permutations, rotations with Pythagorean entries, unimodular shears
         for (int k = 0; k < (thorough ? 32 : 4); ++k) {
             int p[4] = {0, 1, 2, 3};
